@@ -114,6 +114,8 @@ def real_step(s, first_name):
         return DF.set_type('[bz]', type='integer', resources=0, on_error=sv.clear)
     if k == 'sql_flag':
         return DF.dump_to_sql({'t_res_1': {'resource-name': 'res_1'}}, engine='sqlite://', updated_column='_u')
+    if k == 'rename_res':
+        return DF.update_resource(0, name='rn')
     if k == 'set_pk_a':
         return DF.set_primary_key(['a'])
     if k == 'set_pk_ab':
